@@ -21,10 +21,20 @@ def seed_corpus(ck, d):
     """write seed inputs (config prefix + document [+ marker + entity]) into directory d; returns count"""
     n = 0
     r = core.rng(ck.seed, PID, 'seeds')
+    skipped_slow = []
+    ck.cov['seeds_skipped_large_occurrence_bounds'] = skipped_slow
 
     def put(data):
         nonlocal n
         if len(data) > 60000:
+            return
+        # schemas with large occurrence bounds (the XERCESC-1051 group of the in-repo regression set: maxOccurs 100 around
+        # 99 + 99) take minutes to turn into a DFA under ASan -- a documented performance limitation (doc/schema.xml), not a
+        # hang: as seeds they only make every fuzz shard trip libFuzzer's per-input timeout while it loads the corpus.
+        # The shape is exercised with its own budget by the pathological case "big-maxoccurs".
+        occ = sorted((int(x) for x in re.findall(rb'(?:max|min)Occurs="(\d+)"', data)), reverse=True)
+        if occ and (occ[0] > 1000 or (len(occ) > 1 and occ[0] * occ[1] > 2000)):
+            skipped_slow.append(len(data))
             return
         with open(os.path.join(d, 'seed-%s' % hashlib.sha1(data).hexdigest()[:16]), 'wb') as f:
             f.write(data)
